@@ -420,7 +420,9 @@ def oracle(ctx):
                    for gi, fam in enumerate(group) for mi, m in enumerate(fam)]
             fi += len(group)
 
-    for _, results in _stream(ctx, _eval_member, batches(), t_oracle * 0.5):
+    # on an overloaded machine (the always-evaluated part was slow) a pool round would overrun the budget
+    gate = t_oracle * 0.6 if ctx.notes["t_minimal_s"] < 45 else float("inf")
+    for _, results in _stream(ctx, _eval_member, batches(), gate):
         it = iter(results)
         for fam in groups[-1]:
             for m in fam:
